@@ -120,6 +120,9 @@ async def explore(tier, seed, m):
                 fa, fb = sg.subscription["fields"][0], sg.subscription["fields"][1]
                 if not any(is_nn(a["type"]) and not a.get("default") for x in (fa, fb) for a in x["args"]):
                     q = "subscription S { ...RootF }\nfragment RootF on Subscription { " + sel(fa) + " " + sel(fb) + " }"; variables = None; kind = "validation-error"
+                    if rng.random() < 0.5:
+                        # ...and the offending operation is NOT the first subscription operation of the document
+                        q = "subscription First { " + sel(fa) + " }\nquery Between { __typename k: __typename }\n" + (q if rng.random() < 0.5 else "subscription S { " + sel(fa) + " second: " + sel(fb) + " }")
             SHARED_PAYLOAD[0] = rng.random() < 0.4
             log.clear(); b.calls.clear()
             resps = []
